@@ -128,6 +128,21 @@ def is_scalar(node, fenv):
 
 
 # --------------------------------------------------------------------------- Hessian
+def tr_cached(cls):
+    """Which methods of Hessian are functools.cached_property (evaluated once per object) / plain properties."""
+    cached, plain = [], []
+    for n in cls.body:
+        if isinstance(n, ast.FunctionDef):
+            decs = [un(d) for d in n.decorator_list]
+            if "cached_property" in decs or "functools.cached_property" in decs:
+                cached.append(n.name)
+            elif "property" in decs:
+                plain.append(n.name)
+    lst = "; ".join('"%s"%%string' % c for c in cached)
+    return ["(* methods of Hessian decorated with @cached_property: evaluated once per object, later accesses return the stored value *)",
+            f"Definition gen_cached_properties : list string := [{lst}]."]
+
+
 def tr_n_tr(cls):
     f = find_method(cls, "n_tr")
     body = strip(f.body)
@@ -378,12 +393,12 @@ def tr_idxs(cls):
     if un(g.test) != f"{r} not in self._calculated_rows" or g.orelse:
         raise Untranslatable(f"_idxs_to_calculate: guard `{un(g.test)}`")
     inner = strip(g.body)
-    if not inner or un(inner[0]) != f"self._calculated_rows.append({r})":
-        raise Untranslatable("_idxs_to_calculate: the row is not appended to _calculated_rows first")
+    if any("_calculated_rows" in un(st) for st in inner):
+        raise Untranslatable("_idxs_to_calculate: the generator touches _calculated_rows (rows are to be marked by the caller, after they are stored)")
     names = {r: "row_idx"}
     local = {}
     y = None
-    for st in inner[1:]:
+    for st in inner:
         if isinstance(st, ast.Assign) and len(st.targets) == 1 and isinstance(st.targets[0], ast.Name):
             local[st.targets[0].id] = nat_expr(st.value, {**names, **local}, "_idxs_to_calculate")
         elif isinstance(st, ast.Expr) and isinstance(st.value, ast.Yield):
@@ -394,7 +409,7 @@ def tr_idxs(cls):
         raise Untranslatable("_idxs_to_calculate: yield is not a pair")
     a = nat_expr(y.elts[0], {**names, **local}, "_idxs_to_calculate")
     c = nat_expr(y.elts[1], {**names, **local}, "_idxs_to_calculate")
-    return [f"(* {where(cls, f)}: for row_idx in range(_n_rows): if row_idx not in _calculated_rows: append; yield (atom_idx, component) *)",
+    return [f"(* {where(cls, f)}: for row_idx in range(_n_rows): if row_idx not in _calculated_rows: yield (atom_idx, component)  [no side effect] *)",
             f"Definition gen_atom_idx (row_idx : nat) : nat := {a}.",
             f"Definition gen_component (row_idx : nat) : nat := {c}."]
 
@@ -416,16 +431,22 @@ def tr_placement(cls):
     i, k = (e.id for e in loop.target.elts)
     lb = strip(loop.body)
     want_row = f"row = self._cdiff_row({i}, {k}) if self._do_c_diff else self._diff_row({i}, {k})"
-    if len(lb) != 2 or un(lb[0]) != want_row:
-        raise Untranslatable("_calculate_in_serial: row evaluation changed")
+    if len(lb) != 3 or un(lb[0]) != want_row:
+        raise Untranslatable("_calculate_in_serial: expected `row = ..`, `self._hessian[idx, :] = row`, `self._calculated_rows.append(idx)`")
+    mk = lb[2]
+    if not (isinstance(mk, ast.Expr) and isinstance(mk.value, ast.Call) and un(mk.value.func) == "self._calculated_rows.append"
+            and len(mk.value.args) == 1):
+        raise Untranslatable("_calculate_in_serial: the row is not marked as calculated right after it is stored")
+    mark = nat_expr(mk.value.args[0], {i: "i", k: "k"}, "_calculate_in_serial")
     st = lb[1]
     if not (isinstance(st, ast.Assign) and isinstance(st.targets[0], ast.Subscript) and un(st.targets[0].value) == "self._hessian"
             and isinstance(st.targets[0].slice, ast.Tuple) and len(st.targets[0].slice.elts) == 2
             and un(st.targets[0].slice.elts[1]) == ":" and un(st.value) == "row"):
         raise Untranslatable("_calculate_in_serial: row store changed")
     e = nat_expr(st.targets[0].slice.elts[0], {i: "i", k: "k"}, "_calculate_in_serial")
-    out += [f"(* {where(cls, f)}: self._hessian[<idx>, :] = row *)",
-            f"Definition gen_row_serial (i k : nat) : nat := {e}."]
+    out += [f"(* {where(cls, f)}: self._hessian[<idx>, :] = row ; self._calculated_rows.append(<mark>) *)",
+            f"Definition gen_row_serial (i k : nat) : nat := {e}.",
+            f"Definition gen_mark_serial (i k : nat) : nat := {mark}."]
     # parallel
     f = find_method(cls, "calculate")
     body = strip(f.body)
@@ -466,9 +487,9 @@ def tr_placement(cls):
         raise Untranslatable("calculate: collection loop")
     ri, rw = (un(x) for x in coll.target.elts)
     cb = strip(coll.body)
-    if len(cb) != 1 or un(cb[0]) != f"self._hessian[{ri}, :] = {rw}.result()":
-        raise Untranslatable("calculate: result store changed")
-    out += [f"(* {where(cls, f)}: jobs = [(<idx>, submit(i, k)) ...]; self._hessian[idx, :] = result *)",
+    if len(cb) != 2 or un(cb[0]) != f"self._hessian[{ri}, :] = {rw}.result()" or un(cb[1]) != f"self._calculated_rows.append({ri})":
+        raise Untranslatable("calculate: expected `self._hessian[idx, :] = row.result()` followed by `self._calculated_rows.append(idx)`")
+    out += [f"(* {where(cls, f)}: jobs = [(<idx>, submit(i, k)) ...]; self._hessian[idx, :] = result ; _calculated_rows.append(idx) *)",
             f"Definition gen_row_parallel (i k : nat) : nat := {e}."]
     return out
 
@@ -628,7 +649,7 @@ def main():
          "Import ListNotations.",
          "",
          "(* ---- index arithmetic (nat / Z only) ---- *)"]
-    for part in (tr_n_tr(H), tr_n_v(H), tr_n_rows(N), tr_idxs(N), tr_placement(N), tr_hybrid(Y)):
+    for part in (tr_cached(H), tr_n_tr(H), tr_n_v(H), tr_n_rows(N), tr_idxs(N), tr_placement(N), tr_hybrid(Y)):
         L += part + [""]
     L += ["(* ---- formulas over an arithmetic environment ---- *)",
           "Section C11Gen.",
